@@ -6,11 +6,11 @@ package gosym
 
 import (
 	"fmt"
-	"sort"
 	"go/token"
 	"go/types"
 	"os"
 	"runtime"
+	"sort"
 	"strings"
 
 	"golang.org/x/tools/go/ssa"
@@ -37,6 +37,10 @@ type undoRec struct {
 // Interp is one interpreter instance (one worker).  Instances share the
 // immutable ssa.Program and nothing else.
 type Interp struct {
+	// Stop, when set to non-zero by the driver of several interpreters, makes
+	// the current cell end at the next path boundary
+	Stop *int32
+
 	prog    *ssa.Program
 	globals map[*ssa.Global]*value
 	fninfo  map[*ssa.Function]*fnInfo
@@ -73,9 +77,9 @@ type Stats struct {
 	Paths, Branches, SolverQueries, Unsat, Sat, Unknown int64
 	AssertQueries, DigitBoundPruned, AtomLinks          int64
 	TableAbstractions, TableRefinements                 int64
-	SolverNs                                          int64
-	Steps                                             int64
-	Funcs                                             map[string]bool
+	SolverNs                                            int64
+	Steps                                               int64
+	Funcs                                               map[string]bool
 }
 
 func (in *Interp) logUndo(fn func()) {
@@ -135,18 +139,18 @@ type blockInfo struct {
 }
 
 type fnInfo struct {
-	fn        *ssa.Function
-	nregs     int
-	blocks    []*blockInfo
-	params    []int
-	freevars  []int
-	locals    []int
-	localTyps []types.Type
-	intrinsic intrinsicFn
-	name      string
-	seen      bool
+	fn                     *ssa.Function
+	nregs                  int
+	blocks                 []*blockInfo
+	params                 []int
+	freevars               []int
+	locals                 []int
+	localTyps              []types.Type
+	intrinsic              intrinsicFn
+	name                   string
+	seen                   bool
 	isPkgInit, initAllowed bool
-	steps     int64
+	steps                  int64
 }
 
 type frame struct {
